@@ -1591,7 +1591,7 @@ func runParseGate(c *Ctx, r *Reporter) {
 	if fd := FindFunc(mainPkg, "(*runCmd).Run"); fd != nil {
 		sf := p.SSAFunc(fd.Obj)
 		var runCall, asCall, svgCall, handleCall *ssa.Call
-		var asCalls []*ssa.Call
+		var asCalls, handleCalls []*ssa.Call
 		// the command may be split into helpers: the calls are looked for in the command function and the functions of
 		// the main package it calls
 		for _, h := range regionFns(sf, 2, nil) {
@@ -1611,6 +1611,7 @@ func runParseGate(c *Ctx, r *Reporter) {
 								svgCall = call
 							case sc.Name() == "handleEvyErr":
 								handleCall = call
+								handleCalls = append(handleCalls, call)
 							}
 						}
 					}
@@ -1626,8 +1627,30 @@ func runParseGate(c *Ctx, r *Reporter) {
 			r.Viol(fd.QName()+"#report", p.Rel(fd.Decl.Pos()), "`evy run` must run the program through (*Evaluator).Run and hand its error to handleEvyErr")
 		} else if runCall.Parent() == handleCall.Parent() {
 			// handleEvyErr on every path after Run
-			okh := !anyReturnPathAvoiding(runCall.Block(), []*ssa.BasicBlock{handleCall.Block()}) && reachesBlock(runCall.Block(), handleCall.Block())
-			okh = okh && valueReaches(handleCall.Call.Args[0], runCall, 5)
+			// (several calls: each either hands over Run's error or sits where that error is known to be nil)
+			var hblocks []*ssa.BasicBlock
+			okh := true
+			for _, hc := range handleCalls {
+				if hc.Parent() != runCall.Parent() {
+					continue
+				}
+				hblocks = append(hblocks, hc.Block())
+				if valueReaches(hc.Call.Args[0], runCall, 5) {
+					continue
+				}
+				knownNil := false
+				for _, f := range impliedConds(hc.Block()) {
+					if bo, ok := f.Cond.(*ssa.BinOp); ok && (bo.Op == token.NEQ || bo.Op == token.EQL) {
+						if k, ok := bo.Y.(*ssa.Const); ok && k.IsNil() && valueReaches(bo.X, runCall, 3) && f.Truth == (bo.Op == token.EQL) {
+							knownNil = true
+						}
+					}
+				}
+				if !knownNil {
+					okh = false
+				}
+			}
+			okh = okh && len(hblocks) > 0 && !anyReturnPathAvoiding(runCall.Block(), hblocks)
 			r.Check(okh, fd.QName()+"#report", p.Rel(instrPos(handleCall)), "the evaluation error always reaches handleEvyErr", "a path from eval.Run to the end of `evy run` avoids handleEvyErr, or handleEvyErr does not receive Run's error: a rejected program could end with status 0")
 		} else {
 			// the program is run in a helper: the helper returns Run's error whenever there is one, and its caller hands
